@@ -2,7 +2,7 @@
 # eval_seed.sh <ID> <k> <PROP>...   : apply /tmp/mut/out/<ID>/m<k>/patch.diff in the scratch worktree /tmp/mut/<ID>, run the listed checks
 # (quick tier) against THAT worktree through tools/seedrun.py, revert the worktree, remove the scratch build. Result: /tmp/mut/out/<ID>/m<k>/eval.txt
 ID=$1; K=$2; shift 2
-WT=${SEED_WT:-/tmp/mut/$ID}; D=${SEED_OUT:-/tmp/mut/out}/$ID/m$K; SC=/tmp/seedrun/$ID-m$K
+WT=${SEED_WT:-/tmp/mut/$ID}; D=${SEED_OUT:-/tmp/mut/out}/$ID/m$K; SC=/tmp/seedrun/$(basename ${SEED_OUT:-out})-$ID-m$K
 TIER=${SEED_TIER:-quick}
 cd $WT && git checkout -q -- . && git apply $D/patch.diff || { echo "cannot apply" > $D/eval.txt; exit 2; }
 {
